@@ -23,7 +23,7 @@ from .route import (Route,
                     normalize_path,
                     check_render_error)
 
-from .utils import int2hexguid
+from .utils import int2hexguid, quote_ctl_chars
 from .middleware import check_middlewares
 from .errors import (HTTPException,
                      MIME_SUPPORT_MAP,
@@ -299,7 +299,9 @@ class Application(object):
                     if route.slash_mode == S_REDIRECT:
                         parts = [request.url_root.rstrip('/'),
                                  norm_path, '?', request.query_string.decode('utf8')]
-                        return redirect(''.join(parts))  # TODO: error_handler
+                        # no control characters in the Location header
+                        location = quote_ctl_chars(''.join(parts))
+                        return redirect(location)  # TODO: error_handler
                     elif route.slash_mode == S_STRICT:
                         nf_exc = err_handler.not_found_type(request=request,
                                                             application=self,
